@@ -48,6 +48,13 @@ func (r *replayer) build() error {
 	for k, v := range genTable(r.pkgDir) {
 		ov[k] = v
 	}
+	if p4, err := genP4Info(r.pkgDir); err == nil {
+		for k, v := range p4 {
+			ov[k] = v
+		}
+	} else {
+		return err
+	}
 	repl := map[string]string{}
 	n := 0
 	for virt, content := range ov {
